@@ -8,8 +8,13 @@ package shmipc
 // queue with an idle consumer is a stranded element.
 
 import (
+	"bufio"
 	"fmt"
 	"math/rand"
+	"net"
+	"os"
+	"path/filepath"
+	"strings"
 	"sync"
 	"sync/atomic"
 	"time"
@@ -30,6 +35,7 @@ type wkCase struct {
 	Memfd    bool   `json:"memfd"`
 	Profile  string `json:"profile"`
 	Seed     int64  `json:"seed"`
+	XProc    bool   `json:"server_in_child_process"`
 }
 
 var wkProfiles = []allocProfile{
@@ -213,11 +219,14 @@ func runWakeupCase(c *checkCtx, cs wkCase) (res wkResult) {
 						atomic.AddInt64(&res.flushErrors, 1)
 						continue
 					}
-					e.cl.SetReadDeadline(time.Now().Add(5 * time.Second))
+					t0 := time.Now()
+					e.cl.SetReadDeadline(t0.Add(5 * time.Second))
 					if _, err := e.cl.BufferReader().ReadBytes(cs.MsgSize); err != nil {
 						// the echo did not come back: stop the burst and let the quiescence predicate decide why
 						atomic.AddInt64(&res.flushErrors, 1)
-						atomic.StoreUint32(&abort, 1)
+						if atomic.CompareAndSwapUint32(&abort, 0, 1) {
+							abortInfo.Store(fmt.Sprintf("ReadBytes on stream %d returned %v after %v", e.cl.StreamID(), err, time.Since(t0)))
+						}
 						break
 					}
 					e.cl.BufferReader().ReleasePreviousRead()
@@ -239,7 +248,21 @@ func runWakeupCase(c *checkCtx, cs wkCase) (res wkResult) {
 		}
 		if atomic.LoadUint32(&abort) != 0 {
 			if len(res.viol) == 0 {
-				res.inconcl = "an echo round trip did not complete within 5 s although nothing is stranded"
+				diag := ""
+				for i, e := range streams {
+					e.cl.pendingData.Lock()
+					cp := len(e.cl.pendingData.unread)
+					e.cl.pendingData.Unlock()
+					e.sv.pendingData.Lock()
+					sp := len(e.sv.pendingData.unread)
+					e.sv.pendingData.Unlock()
+					if cp != 0 || sp != 0 || e.cl.recvBuf.Len() != 0 || e.sv.recvBuf.Len() != 0 || !e.cl.IsOpen() || !e.sv.IsOpen() {
+						diag += fmt.Sprintf("[stream %d id=%d client: pending=%d buffered=%d open=%v notify=%d | server: pending=%d buffered=%d open=%v notify=%d] ",
+							i, e.cl.StreamID(), cp, e.cl.recvBuf.Len(), e.cl.IsOpen(), len(e.cl.recvNotifyCh), sp, e.sv.recvBuf.Len(), e.sv.IsOpen(), len(e.sv.recvNotifyCh))
+					}
+				}
+				ai, _ := abortInfo.Load().(string)
+				res.inconcl = "an echo round trip did not complete although nothing is stranded: " + ai + " " + diag
 			}
 			break
 		}
@@ -287,7 +310,18 @@ func checkWakeup(c *checkCtx) {
 	var points, skipped int
 	for i := 0; i < n; i++ {
 		cs := genWakeupCase(c, i)
-		res := runWakeupCase(c, cs)
+		if only := os.Getenv("VERIF_C05_ONLY"); only != "" && only != fmt.Sprint(i) {
+			continue
+		}
+		cs.XProc = i%4 == 3
+		var res wkResult
+		if cs.XProc {
+			cs.Bursts = cs.Bursts / 3 // a STATE query per burst costs a process round trip
+			res = runWakeupCaseXProc(c, cs)
+			c.count("executions with the server in a child process", 1)
+		} else {
+			res = runWakeupCase(c, cs)
+		}
 		c.eval(1)
 		points += res.points
 		skipped += res.skipped
@@ -302,7 +336,7 @@ func checkWakeup(c *checkCtx) {
 			c.inconclusiveCase(fmt.Sprintf("wakeup-%d", cs.Idx), res.inconcl)
 		}
 		if res.cross > 0 || res.idleArrive > 0 || (cs.Profile == "natural" && res.points > 0) {
-			c.nontrivial(fmt.Sprintf("%d/%d/%s/%s", cs.QueueCap, cs.Workers, cs.Profile, res.sig))
+			c.nontrivial(fmt.Sprintf("%d/%d/%s/%v/%s", cs.QueueCap, cs.Workers, cs.Profile, cs.XProc, res.sig))
 		}
 		if i < 3 {
 			c.sample(cs)
@@ -314,4 +348,281 @@ func checkWakeup(c *checkCtx) {
 	if points == 0 {
 		c.noObservation("no quiescent point could be judged")
 	}
+}
+
+// ---------------------------------------------------------------------------------------------
+// two-process variant: the server session (consumer of requests, producer of echoes) lives in a child process, as in a
+// real deployment; the quiescence predicate combines the parent's view with the child's answer to a STATE query
+// (taken after a fence on the child's own event loop).
+
+type wkPeerState struct {
+	RecvPolling uint64 `json:"recv_polling"`
+	SendPolling uint64 `json:"send_polling"`
+	RecvQueue   int64  `json:"recv_queue"`
+	Working     bool   `json:"working"`
+	SendCh      int    `json:"send_ch"`
+	Writing     uint32 `json:"writing"`
+	Fallback    uint64 `json:"fallback"`
+	Closed      bool   `json:"closed"`
+	MNWRecheck  uint64 `json:"mnw_recheck_hits"`
+}
+
+func init() {
+	verifChildRoles["c05peer"] = wkPeerChild
+}
+
+func wkPeerChild(args []string) {
+	sock, profile, msgSize := args[0], args[1], 16
+	var seed int64
+	fmt.Sscan(args[2], &seed)
+	fenceInit()
+	var k *ctl
+	for _, pr := range wkProfiles {
+		if pr.name == profile && pr.build != nil {
+			k = newCtl(pr.name, seed)
+			pr.build(k)
+			k.install()
+		}
+	}
+	ln, err := net.Listen("unix", sock)
+	if err != nil {
+		childReply(map[string]string{"error": err.Error()})
+		return
+	}
+	childReply(map[string]string{"phase": "listening"})
+	ln.(*net.UnixListener).SetDeadline(time.Now().Add(30 * time.Second))
+	conn, err := ln.Accept()
+	ln.Close()
+	if err != nil {
+		childReply(map[string]string{"error": err.Error()})
+		return
+	}
+	conf, _ := newTestConfig(pairOpt{})
+	s, err := newSession(conf, conn, false)
+	if err != nil {
+		childReply(map[string]string{"error": err.Error()})
+		return
+	}
+	childReply(map[string]string{"phase": "ready"})
+	go func() {
+		for {
+			st, err := s.AcceptStream()
+			if err != nil {
+				return
+			}
+			go func(sv *Stream) {
+				for {
+					buf, err := sv.BufferReader().ReadBytes(msgSize)
+					if err != nil {
+						return
+					}
+					sv.BufferWriter().WriteBytes(buf)
+					sv.BufferReader().ReleasePreviousRead()
+					_ = sv.Flush(false)
+				}
+			}(st)
+		}
+	}()
+	in := bufio.NewReader(os.Stdin)
+	for {
+		line, err := in.ReadString('\n')
+		if err != nil {
+			return
+		}
+		switch strings.TrimSpace(line) {
+		case "STATE":
+			fence()
+			st := wkPeerState{Closed: s.IsClosed()}
+			if !st.Closed && s.queueManager != nil {
+				st.RecvPolling = atomic.LoadUint64(&s.stats.recvPollingEventCount)
+				st.SendPolling = atomic.LoadUint64(&s.stats.sendPollingEventCount)
+				st.RecvQueue = s.queueManager.recvQueue.size()
+				st.Working = s.queueManager.recvQueue.consumerIsWorking()
+				st.SendCh = len(s.sendCh)
+				st.Writing = atomic.LoadUint32(&s.writing)
+				st.Fallback = atomic.LoadUint64(&s.stats.fallbackWriteCount)
+			}
+			if k != nil {
+				st.MNWRecheck = k.hitCount(vpMNWBeforeStore1)
+			}
+			childReply(st)
+		case "QUIT":
+			s.Close()
+			waitTeardown(s, 10*time.Second)
+			return
+		}
+	}
+}
+
+func runWakeupCaseXProc(c *checkCtx, cs wkCase) (res wkResult) {
+	sock := filepath.Join(sockDir(), fmt.Sprintf("c05_%d.sock", atomic.AddUint64(&pairSeq, 1)))
+	defer os.Remove(sock)
+	cp, err := c.spawnChild("c05peer", []string{sock, cs.Profile, fmt.Sprint(cs.Seed)})
+	if err != nil {
+		res.inconcl = err.Error()
+		return
+	}
+	defer func() {
+		cp.send2("QUIT")
+		cp.wait(15 * time.Second)
+		cp.cleanupFiles()
+	}()
+	var hello map[string]string
+	if _, ok := cp.recv(30*time.Second, &hello); !ok || hello["phase"] != "listening" {
+		res.inconcl = "peer process did not start listening"
+		return
+	}
+	conn, err := net.Dial("unix", sock)
+	if err != nil {
+		res.inconcl = err.Error()
+		return
+	}
+	conf, _ := newTestConfig(pairOpt{memfd: cs.Memfd, queueCap: cs.QueueCap, sizes: smallSizes(64, 50, 1024, 50)})
+	client, err := newSession(conf, conn, true)
+	if err != nil {
+		res.inconcl = "client session: " + err.Error()
+		return
+	}
+	defer func() { client.Close(); waitTeardown(client, 10*time.Second) }()
+	if _, ok := cp.recv(30*time.Second, &hello); !ok || hello["phase"] != "ready" {
+		res.inconcl = "peer session not ready"
+		return
+	}
+	var k *ctl
+	for _, pr := range wkProfiles {
+		if pr.name == cs.Profile && pr.build != nil {
+			k = newCtl(pr.name, cs.Seed)
+			pr.build(k)
+			k.install()
+			defer uninstallCtl()
+		}
+	}
+	violate := func(format string, a ...interface{}) {
+		if len(res.viol) < 5 {
+			res.viol = append(res.viol, fmt.Sprintf(format, a...))
+		}
+	}
+	peerState := func() (wkPeerState, bool) {
+		var st wkPeerState
+		if cp.send2("STATE") != nil {
+			return st, false
+		}
+		_, ok := cp.recv(20*time.Second, &st)
+		return st, ok
+	}
+	var lastPeer wkPeerState
+	judge := func(where string) bool {
+		ok := waitUntil(10*time.Second, func() bool {
+			if !fenceOnce(10 * time.Second) {
+				return false
+			}
+			st, ok := peerState()
+			if !ok || st.Closed {
+				return false
+			}
+			lastPeer = st
+			cs1 := atomic.LoadUint64(&client.stats.sendPollingEventCount)
+			cr := atomic.LoadUint64(&client.stats.recvPollingEventCount)
+			return cs1 == st.RecvPolling && st.SendPolling == cr && len(client.sendCh) == 0 && st.SendCh == 0 &&
+				atomic.LoadUint32(&client.writing) == 0 && st.Writing == 0
+		})
+		fb := atomic.LoadUint64(&client.stats.fallbackWriteCount) + lastPeer.Fallback
+		if !ok || fb != 0 || !fence() || client.IsClosed() {
+			res.skipped++
+			return false
+		}
+		// the child's figures were taken after a fence on its loop; ask once more so that both views are post-fence
+		st, ok2 := peerState()
+		if !ok2 || st.Closed {
+			res.skipped++
+			return false
+		}
+		res.points++
+		res.idleArrive = st.MNWRecheck
+		if st.RecvQueue > 0 {
+			violate("stranded (two processes): at %s all producers had returned, polling events sent==received in both directions and handled, "+
+				"but the server process's receive queue still holds %d element(s) (workingFlag=%v)", where, st.RecvQueue, st.Working)
+		}
+		if n := client.queueManager.recvQueue.size(); n > 0 {
+			fence()
+			if n2 := client.queueManager.recvQueue.size(); n2 > 0 {
+				violate("stranded (two processes): at %s the client's receive queue still holds %d (then %d) element(s)", where, n, n2)
+			}
+		}
+		return true
+	}
+	rng := rand.New(rand.NewSource(cs.Seed))
+	streams := make([]*Stream, cs.Streams)
+	for i := range streams {
+		st, err := client.OpenStream()
+		if err != nil {
+			res.inconcl = err.Error()
+			return
+		}
+		streams[i] = st
+	}
+	var abort uint32
+	perWorker := (cs.Streams + cs.Workers - 1) / cs.Workers
+	for b := 0; b < cs.Bursts && len(res.viol) == 0; b++ {
+		var wg sync.WaitGroup
+		seeds := make([]int64, cs.Workers)
+		for i := range seeds {
+			seeds[i] = rng.Int63()
+		}
+		for w := 0; w < cs.Workers; w++ {
+			lo, hi := w*perWorker, (w+1)*perWorker
+			if hi > cs.Streams {
+				hi = cs.Streams
+			}
+			if lo >= hi {
+				continue
+			}
+			wg.Add(1)
+			go func(w, lo, hi int) {
+				defer wg.Done()
+				wr := rand.New(rand.NewSource(seeds[w]))
+				msg := make([]byte, cs.MsgSize)
+				for m := 0; m < cs.BurstLen && atomic.LoadUint32(&abort) == 0; m++ {
+					st := streams[lo+wr.Intn(hi-lo)]
+					st.BufferWriter().WriteBytes(msg)
+					if err := st.Flush(false); err != nil {
+						atomic.AddInt64(&res.flushErrors, 1)
+						continue
+					}
+					st.SetReadDeadline(time.Now().Add(5 * time.Second))
+					if _, err := st.BufferReader().ReadBytes(cs.MsgSize); err != nil {
+						atomic.AddInt64(&res.flushErrors, 1)
+						atomic.StoreUint32(&abort, 1)
+						break
+					}
+					st.BufferReader().ReleasePreviousRead()
+					atomic.AddInt64(&res.roundTrips, 1)
+					switch wr.Intn(6) {
+					case 0:
+						time.Sleep(time.Duration(wr.Intn(30)) * time.Microsecond)
+					case 1:
+						spinFor(wr.Intn(3000))
+					}
+				}
+			}(w, lo, hi)
+		}
+		wg.Wait()
+		judge(fmt.Sprintf("burst %d", b))
+		if atomic.LoadUint32(&abort) != 0 {
+			if len(res.viol) == 0 {
+				res.inconcl = "an echo round trip did not complete within 5 s although nothing is stranded"
+			}
+			break
+		}
+	}
+	res.pollSent = atomic.LoadUint64(&client.stats.sendPollingEventCount) + lastPeer.SendPolling
+	if k != nil {
+		res.sig = k.signature()
+		res.cross, _ = k.crossTransitions(mnwPoints, append(append([]int{}, wakePoints...), qPutPoints...))
+		res.idleArrive += k.hitCount(vpMNWBeforeStore1)
+	}
+	for _, st := range streams {
+		st.Close()
+	}
+	return
 }
